@@ -778,10 +778,11 @@ def rules(repo, tier):
     from ..optional import rule_optional
     from ..mode import mode_rules
     from ..callsig import rule_callsig
+    from ..docsig import rule_docsig
     from ..axisdefault import rule_axisdefault
     return list(_rules_core(repo, tier)) + [rule_memo(repo, 'C09.MEMO', 'history independence: nothing computed from the contents of a tensor argument is kept '
                                                       'under the identity, address or version of that tensor, in module-level storage, or published from a generator '
                                                       'before it is complete - a later call with the same object and other contents must not be answered from it',
                                                       ['pypose.optim.corrector', 'pypose.optim.kernel', 'pypose.optim.optimizer'], floor=3),
-            rule_optional(repo, 'C09.OPT', ['pypose.optim.corrector', 'pypose.optim.kernel', 'pypose.optim.optimizer'])] + mode_rules(repo, 'C09', ['pypose.optim.corrector', 'pypose.optim.kernel', 'pypose.optim.optimizer']) + [rule_callsig(repo, 'C09.SIG', ['pypose.optim.corrector', 'pypose.optim.kernel', 'pypose.optim.optimizer'])] + [
+            rule_optional(repo, 'C09.OPT', ['pypose.optim.corrector', 'pypose.optim.kernel', 'pypose.optim.optimizer'])] + mode_rules(repo, 'C09', ['pypose.optim.corrector', 'pypose.optim.kernel', 'pypose.optim.optimizer']) + [rule_callsig(repo, 'C09.SIG', ['pypose.optim.corrector', 'pypose.optim.kernel', 'pypose.optim.optimizer']), rule_docsig(repo, 'C09.DOC', ['pypose.optim.corrector', 'pypose.optim.kernel', 'pypose.optim.optimizer'])] + [
             rule_axisdefault(repo, 'C09.AXDEF', ['pypose.optim.corrector', 'pypose.optim.kernel'])]
